@@ -50,6 +50,9 @@ func DeclClass(t *Term, role, cx string) byte {
 	if role == "typename" || role == "typefmt" || role == "ifacetype" || (t != nil && t.K == "nil") {
 		return 'S'
 	}
+	if t != nil && (t.K == "rstring" || t.K == "rbytes") {
+		return 'S' // what a redactable shows outside its own envelopes
+	}
 	if role == "ret" && t != nil && t.K == "obj" && hasCap(t, "SM") && !hasCap(t, "SF") {
 		return 'S'
 	}
